@@ -4,14 +4,17 @@ package c06
 import (
 	"fmt"
 	"strings"
+	"sync"
 
 	"github.com/hashicorp/go-memdb"
 
+	"github.com/hashicorp/consul/agent/consul"
 	"github.com/hashicorp/consul/agent/structs"
 	"github.com/hashicorp/consul/internal/verifmc/cmdlib"
 	"github.com/hashicorp/consul/internal/verifmc/e1"
 	"github.com/hashicorp/consul/internal/verifmc/ev"
 	"github.com/hashicorp/consul/internal/verifmc/queries"
+	"github.com/hashicorp/consul/internal/verifmc/rpcq"
 	"github.com/hashicorp/consul/internal/verifmc/world"
 )
 
@@ -59,10 +62,34 @@ func Run(c *ev.Ctx) {
 	if !quick {
 		phases[0].Depth, phases[1].Depth, phases[2].Depth = 3, 2, 2
 	}
-	totalQ := 0
+	totalQ, totalRPC := 0, 0
+	var mu sync.Mutex
+	rpcErrors := map[string]int{}
 	for _, ph := range phases {
 		qs := queries.Groups(ph.Queries...)
 		totalQ += len(qs)
+		// the same reads through the RPC endpoint methods (which post-process results and indexes)
+		rqs := rpcq.Groups(ph.Queries...)
+		totalRPC += len(rqs)
+		rpcObs := func(w *world.World) []obs {
+			vs, err := consul.VerifNewServer(w.BoundFSM(), nil)
+			if err != nil {
+				c.HarnessError("endpoint server: " + err.Error())
+				return nil
+			}
+			defer vs.Close()
+			o := make([]obs, len(rqs))
+			for i, q := range rqs {
+				idx, res, err := q.Run(vs)
+				o[i] = obs{idx: idx, res: res, err: err}
+				if err != nil {
+					mu.Lock()
+					rpcErrors[q.Name+": "+firstLine(err.Error())]++
+					mu.Unlock()
+				}
+			}
+			return o
+		}
 		var alpha []world.Op
 		for _, op := range cmdlib.Flatten(groups, ph.Groups...) {
 			// flipping the intention storage format without the leader's migration is not a client write
@@ -112,12 +139,51 @@ func Run(c *ev.Ctx) {
 				idx, res, err := q.Run(w.Store(), ws)
 				o[i] = obs{idx, res, ws, err}
 			}
-			return o
+			return append(o, rpcObs(w)...)
 		}
 		cfg.Post = func(t *e1.Trans) {
 			pre := t.Pre.([]obs)
 			reap := strings.HasPrefix(t.Op.Kind, "tombstone/")
 			linkRemoved := uint64(gwLinks(t.W)) < pre[len(qs)].idx
+			flagged := map[string]bool{} // store-level queries that violated a rule in this transition
+			defer func() {
+				post := rpcObs(t.W)
+				if post == nil {
+					return
+				}
+				rpre := pre[len(qs)+1:]
+				for i, q := range rqs {
+					if rpre[i].err != nil || post[i].err != nil {
+						continue
+					}
+					c.Add("rpc_query_evaluations", 1)
+					a, b := rpre[i].idx, post[i].idx
+					if b == 0 {
+						t.Violate("C06:rpc-index-zero:"+qclass(q.Name), fmt.Sprintf("%s reports index 0", q.Name))
+					}
+					if flagged[q.Twin] {
+						continue // the same data read from the store directly already shows the fault; reported there
+					}
+					if post[i].res != rpre[i].res {
+						c.Add("rpc_result_changes_observed", 1)
+						if b <= a && linkRemoved && strings.Contains(q.Name, "connect") {
+							t.Violate("C06:connect-query-index-slides-back-when-gateway-link-is-removed",
+								fmt.Sprintf("%s: a terminating-gateway link of the service was removed; the result changed but the reported index went %d -> %d", q.Name, a, b))
+							continue
+						}
+						if b <= a {
+							t.Violate("C06:changed-without-index-increase:"+qclass(q.Name)+":op="+t.Op.Kind,
+								fmt.Sprintf("%s: the reply changed but the reported index went %d -> %d (a query blocked on %d never returns the new result)\n before: %s\n after:  %s", q.Name, a, b, a, trunc(rpre[i].res), trunc(post[i].res)))
+						}
+					}
+					if b < a && linkRemoved && strings.Contains(q.Name, "connect") {
+						continue
+					}
+					if b < a && !reap {
+						t.Violate("C06:index-decreased:"+qclass(q.Name)+":op="+t.Op.Kind, fmt.Sprintf("%s: reported index decreased %d -> %d", q.Name, a, b))
+					}
+				}
+			}()
 			for i, q := range qs {
 				idx, res, err := q.Run(t.W.Store(), memdb.NewWatchSet())
 				if err != nil || pre[i].err != nil {
@@ -128,11 +194,13 @@ func Run(c *ev.Ctx) {
 				if res != pre[i].res {
 					c.Add("result_changes_observed", 1)
 					if b <= a && linkRemoved && strings.Contains(q.Name, "connect") {
+						flagged[q.Name] = true
 						t.Violate("C06:connect-query-index-slides-back-when-gateway-link-is-removed",
 							fmt.Sprintf("%s: a terminating-gateway link of the service was removed; the result changed but the reported index went %d -> %d", q.Name, a, b))
 						continue
 					}
 					if b <= a {
+						flagged[q.Name] = true
 						t.Violate("C06:changed-without-index-increase:"+qclass(q.Name)+":op="+t.Op.Kind,
 							fmt.Sprintf("%s: result changed but the reported index went %d -> %d (a query blocked on %d never returns the new result)\n before: %s\n after:  %s", q.Name, a, b, a, trunc(pre[i].res), trunc(res)))
 					}
@@ -142,11 +210,13 @@ func Run(c *ev.Ctx) {
 					}
 				}
 				if b < a && linkRemoved && strings.Contains(q.Name, "connect") {
+					flagged[q.Name] = true
 					t.Violate("C06:connect-query-index-slides-back-when-gateway-link-is-removed",
 						fmt.Sprintf("%s: a terminating-gateway link of the service was removed; the reported index went %d -> %d", q.Name, a, b))
 					continue
 				}
 				if b < a && !reap {
+					flagged[q.Name] = true
 					t.Violate("C06:index-decreased:"+qclass(q.Name)+":op="+t.Op.Kind, fmt.Sprintf("%s: reported index decreased %d -> %d", q.Name, a, b))
 				}
 			}
@@ -156,10 +226,22 @@ func Run(c *ev.Ctx) {
 	}
 	runBlocking(c)
 	c.Set("queries_instantiated", totalQ)
-	c.Set("rule", "every transition of a BFS over the write alphabet x every instantiated read query: (index, result, watch set) before and after; result changed => index strictly larger and a watch channel fired; index never decreases except on tombstone reap")
+	c.Set("rpc_endpoint_queries_instantiated", totalRPC)
+	c.Set("rpc_endpoint_query_errors", rpcErrors)
+	c.Set("rule", "every transition of a BFS over the write alphabet x every instantiated read query: (index, result, watch set) before and after; result changed => index strictly larger and a watch channel fired; index never decreases except on tombstone reap; the same reads are made through the RPC endpoint methods (rpc_endpoint_queries_instantiated) on a Server value over the state, judged by the reply's data and QueryMeta index")
 	c.Sample(map[string]any{"phases": phases})
 	c.Assume("endpoint conventions mirrored: KVS.Get reports the entry's ModifyIndex when the key exists; a reported index of 0 is clamped to 1 (SetQueryMeta), so 'never zero' holds by construction")
 	c.Assume("runs on freshly replayed instances (watch channels only fire on a primary memdb)")
+}
+
+func firstLine(s string) string {
+	if i := strings.IndexByte(s, '\n'); i >= 0 {
+		s = s[:i]
+	}
+	if len(s) > 160 {
+		s = s[:160]
+	}
+	return s
 }
 
 func trunc(s string) string {
